@@ -123,6 +123,19 @@ class Store:
             self._verify(ctx, path, "str", None, implicit=True)
         return outcome
 
+    def external_write(self, ctx, kindname, value, path, text):
+        """The client itself writes the JSON text of the value's dictionary form to the path (no library save
+        function involved) - then the library's loader must return the value."""
+        old = self.model.get(path)
+        self.fs.files[path] = text.encode("utf-8")
+        self.model[path] = ("ACK", kindname, value)
+        if old is not None:
+            ctx.probe("overwrite")
+        ctx.probe("external-write")
+        ctx.log("external_write", "ack", kind=kindname, path=path, size=len(text))
+        self._verify(ctx, path, "str", None, implicit=True)
+        return "ack"
+
     @staticmethod
     def _cands(old):
         if old is None:
